@@ -20,7 +20,9 @@
 //     11 find with functor                       12 get                 13 extract_min      14 extract_max
 // Results:  bool ops: res b 0 0;  update: res ok inserted 0;  find_f/get: res found val 0;
 //           extract*: res found key val.
-// cfg = [variant, prefill mask over keys 0..7, h0..h7 (tower height - 1 of the prefilled keys)]
+// cfg = [variant, prefill mask over keys 0..7, h0..h7 (tower height - 1 of the prefilled keys), sequential-mode flag,
+//        pre-erase mask: prefilled keys erased again by the main thread before the run (leaves re-usable empty nodes
+//        in IterableList, marked leftovers elsewhere)]
 #ifndef VERIF_C15_H
 #define VERIF_C15_H
 
@@ -168,6 +170,13 @@ namespace c15 {
                 pre += " " + std::to_string( k ) + ":" + std::to_string( r.a );
             }
         }
+        long emask = c.cfg.size() > 11 ? c.cfg[11] : 0;
+        std::string pree;
+        for ( int k = 0; k < NKEYS; ++k )
+            if ( emask & ( 1L << k )) {
+                R r = a->apply( 6, k, 0 );
+                pree += " " + std::to_string( k ) + ":" + std::to_string( r.a );
+            }
         vcase::run_workers( c, [&]( int t ) {
             for ( auto const& op : c.threads[t] ) {
                 if ( op.empty()) continue;
@@ -188,6 +197,15 @@ namespace c15 {
         std::printf( "endcase %s\n", vs::S().overrun ? "fuel" : "finished" );
         std::printf( "monitor steps %zu\n", vs::S().step );
         std::printf( "monitor prefill%s\n", pre.c_str());
+        std::printf( "monitor preerase%s\n", pree.c_str());
+        {   // scheduled steps per worker (atomic accesses + begin), used to enumerate switch points
+            std::vector<long> ts( c.threads.size(), 0 );
+            for ( auto const& l : vs::S().log )
+                if ( l.find( " ev " ) == std::string::npos ) { int t = std::atoi( l.c_str()); if ( t >= 0 && (size_t) t < ts.size()) ++ts[t]; }
+            std::printf( "monitor tsteps" );
+            for ( long x : ts ) std::printf( " %ld", x );
+            std::printf( "\n" );
+        }
         // quiescent point: structure first (before the sweep's own operations), then the sweep
         monitor_out mo;
         a->monitor( mo );
